@@ -297,41 +297,7 @@ func runC19(c *core.Ctx, o Options) {
 	}
 
 	// ---- H4 inbound dispatch
-	serve := c.Func("", "DefaultHandler.serve")
-	if c.Anchor("inbound dispatch", serve != nil, "(*DefaultHandler).serve", posOf(serve)) {
-		var lookup, rAll, rType *ssa.Call
-		eff := map[*ssa.Call]an.EffCall{}
-		an.AllInstrs(serve, func(in ssa.Instruction) {
-			call, ok := in.(*ssa.Call)
-			if !ok {
-				return
-			}
-			e := an.Effective(call)
-			eff[call] = e
-			switch {
-			case an.CalleeIs(&call.Call, "fix", "ValueByTag"):
-				lookup = call
-			case an.CalleeIs(&e.Inner.Call, "simplefix-go", "IncomingHandlerPool.Range"):
-				if s, ok := an.ConstString(e.Arg(1)); ok && s == "ALL" {
-					rAll = call
-				} else {
-					rType = call
-				}
-			}
-		})
-		if c.Anchor("dispatch steps", lookup != nil && rAll != nil && rType != nil, "ValueByTag, Range(ALL), Range(type)", serve.Pos()) {
-			c.Check(an.Render(lookup) == "fix.ValueByTag(msg, h.msgTypeTag)", "H4", "DefaultHandler.serve", "message type is read from the message's MsgType tag", lookup.Pos(), "ValueByTag(msg, h.msgTypeTag)", "the type is looked up as "+an.Render(lookup))
-			c.Check(an.Render(eff[rType].Arg(1)) == "string("+an.Render(lookup)+"#0)", "H4", "DefaultHandler.serve", "type handlers are selected by the extracted type", rType.Pos(), "Range(string(type bytes))", "type-specific handlers are selected by "+an.Render(eff[rType].Arg(1)))
-			c.Check(an.Dominates(rAll, rType) && rAll.Block() == rType.Block(), "H4", "DefaultHandler.serve", "all-types handlers first, then type handlers, unconditionally", serve.Pos(), "Range(ALL) then Range(type) in one block", "the type-specific handlers do not unconditionally follow the all-types handlers")
-			okMsg := true
-			for _, rc := range []*ssa.Call{rAll, rType} {
-				if !handlerCalledWith(eff[rc], ssa.Value(serve.Params[1])) {
-					okMsg = false
-				}
-			}
-			c.Check(okMsg, "H4", "DefaultHandler.serve", "every handler is offered the inbound message itself", serve.Pos(), "handle(msg)", "a handler is not called with the inbound message")
-		}
-	}
+	checkInboundDispatch(c, "H4")
 	// H4: what ServeIncoming accepted is dispatched before Run ends: every return of Run after a stop signal passes the drain
 	if run, drain, serve := c.Func("", "DefaultHandler.Run"), c.Func("", "DefaultHandler.processRemainingIncoming"), c.Func("", "DefaultHandler.serve"); c.Anchor("handler loop and drain", run != nil && drain != nil && serve != nil, "DefaultHandler.Run, processRemainingIncoming, serve", posOf(run)) {
 		var drainCall *ssa.Call
@@ -556,4 +522,44 @@ func handlerCalledWith(e an.EffCall, want ssa.Value) bool {
 		return false
 	}
 	return e.Resolve(call.Call.Args[0]) == want
+}
+
+// checkInboundDispatch: DefaultHandler.serve reads the type from the message's own MsgType tag and offers the message to the
+// all-types handlers and then, unconditionally, to the handlers of its type.
+func checkInboundDispatch(c *core.Ctx, rule string) {
+	serve := c.Func("", "DefaultHandler.serve")
+	if c.Anchor("inbound dispatch", serve != nil, "(*DefaultHandler).serve", posOf(serve)) {
+		var lookup, rAll, rType *ssa.Call
+		eff := map[*ssa.Call]an.EffCall{}
+		an.AllInstrs(serve, func(in ssa.Instruction) {
+			call, ok := in.(*ssa.Call)
+			if !ok {
+				return
+			}
+			e := an.Effective(call)
+			eff[call] = e
+			switch {
+			case an.CalleeIs(&call.Call, "fix", "ValueByTag"):
+				lookup = call
+			case an.CalleeIs(&e.Inner.Call, "simplefix-go", "IncomingHandlerPool.Range"):
+				if s, ok := an.ConstString(e.Arg(1)); ok && s == "ALL" {
+					rAll = call
+				} else {
+					rType = call
+				}
+			}
+		})
+		if c.Anchor("dispatch steps", lookup != nil && rAll != nil && rType != nil, "ValueByTag, Range(ALL), Range(type)", serve.Pos()) {
+			c.Check(an.Render(lookup) == "fix.ValueByTag(msg, h.msgTypeTag)", rule, "DefaultHandler.serve", "message type is read from the message's MsgType tag", lookup.Pos(), "ValueByTag(msg, h.msgTypeTag)", "the type is looked up as "+an.Render(lookup))
+			c.Check(an.Render(eff[rType].Arg(1)) == "string("+an.Render(lookup)+"#0)", rule, "DefaultHandler.serve", "type handlers are selected by the extracted type", rType.Pos(), "Range(string(type bytes))", "type-specific handlers are selected by "+an.Render(eff[rType].Arg(1)))
+			c.Check(an.Dominates(rAll, rType) && rAll.Block() == rType.Block(), rule, "DefaultHandler.serve", "all-types handlers first, then type handlers, unconditionally", serve.Pos(), "Range(ALL) then Range(type) in one block", "the type-specific handlers do not unconditionally follow the all-types handlers")
+			okMsg := true
+			for _, rc := range []*ssa.Call{rAll, rType} {
+				if !handlerCalledWith(eff[rc], ssa.Value(serve.Params[1])) {
+					okMsg = false
+				}
+			}
+			c.Check(okMsg, rule, "DefaultHandler.serve", "every handler is offered the inbound message itself", serve.Pos(), "handle(msg)", "a handler is not called with the inbound message")
+		}
+	}
 }
